@@ -221,10 +221,14 @@ func loadKnown(verifDir string) []knownFinding {
 
 func repoTree() *TreeInfo {
 	t := &TreeInfo{}
-	if out, err := exec.Command("git", "-C", "/repo", "rev-parse", "HEAD").Output(); err == nil {
+	repo := os.Getenv("VERIF_REPO")
+	if repo == "" {
+		repo = "/repo"
+	}
+	if out, err := exec.Command("git", "-C", repo, "rev-parse", "HEAD").Output(); err == nil {
 		t.RepoHead = strings.TrimSpace(string(out))
 	}
-	if out, err := exec.Command("git", "-C", "/repo", "status", "--porcelain").Output(); err == nil {
+	if out, err := exec.Command("git", "-C", repo, "status", "--porcelain").Output(); err == nil {
 		t.Dirty = len(bytes.TrimSpace(out)) > 0
 	}
 	return t
